@@ -12,22 +12,14 @@ Local Open Scope Z_scope.
 (* WMTS (KVP and RESTful): for every grid that _matrix_sets does not skip, every advertised TileMatrix and every
    (col, row) inside the advertised matrix dimensions the request is served, and the tile that is loaded covers
    exactly the rectangle the client derives from TopLeftCorner (axis order swap included), ScaleDenominator,
-   TileWidth/Height - for both grid origins, aligned or not.  Needs: no sqrt2 level skip (finding W1). *)
+   TileWidth/Height - for both grid origins, aligned or not, with or without the sqrt2 level skip (finding W1
+   repaired: WMTS requests address every level; non-vacuity with sqrt2: ex_wmts_sqrt2). *)
 Theorem wmts_address_exact :
   forall s srv m col row r,
-    0 < s_mpu_n s -> 0 < s_mpu_d s -> skip_odd s = false ->
+    0 < s_mpu_n s -> 0 < s_mpu_d s ->
     client_rect s srv (AWmts m col row) = Some r ->
     exists c, served s srv (AWmts m col row) = Some c /\ tile_bbox_c (sg s) c = r.
 Proof. exact wmts_address_exact_l. Qed.
-
-(* The statement without the hypothesis is false of the code (W1): on a sqrt2 grid the advertised matrix m is
-   served from internal level 2m. *)
-Theorem wmts_address_refuted :
-  exists s srv m col row r c,
-    wf (sg s) /\ 0 < s_mpu_n s /\ 0 < s_mpu_d s /\ skip_odd s = true /\
-    client_rect s srv (AWmts m col row) = Some r /\ served s srv (AWmts m col row) = Some c /\
-    tile_bbox_c (sg s) c <> r.
-Proof. exact wmts_address_refuted_l. Qed.
 
 (* The pixel span a WMTS client derives from the advertised ScaleDenominator is exactly the level resolution. *)
 Theorem wmts_scale_denominator_exact :
@@ -117,22 +109,16 @@ Theorem kml_address_exact :
     tile_bbox_c (sg s) c = r.
 Proof. exact kml_address_exact_l. Qed.
 
-(* KML super-overlay: the address written into the link of a sub-tile is answered with that sub-tile
-   (no sqrt2 level skip). *)
+(* KML super-overlay: the address written into the link of a sub-tile is answered with that sub-tile; on sqrt2
+   grids for the even internal levels (the only ones KML links to).  Finding K1 repaired (ex_kml_href_sqrt2);
+   the document of the last level has no links (K2 repaired, ex_kml_last_level). *)
 Theorem kml_href_roundtrip :
   forall s srv x y l h,
-    skip_odd s = false ->
+    (skip_odd s = false \/ l mod 2 = 0) ->
     limit_tile (sg s) x y l = Some (x, y, l) ->
     kml_href_coord s (x, y, l) = Some h ->
     let '(hx, hy, hz) := h in served s srv (AKml hz hx hy) = Some (x, y, l).
 Proof. exact kml_href_roundtrip_l. Qed.
-
-(* finding K1: with the sqrt2 level skip on a ul grid the link names another tile *)
-Theorem kml_href_refuted :
-  exists s srv x y l hx hy hz,
-    wf (sg s) /\ skip_odd s = true /\ ul (sg s) = true /\ limit_tile (sg s) x y l = Some (x, y, l) /\
-    kml_href_coord s (x, y, l) = Some (hx, hy, hz) /\ served s srv (AKml hz hx hy) <> Some (x, y, l).
-Proof. exact kml_href_refuted_l. Qed.
 
 (* Same ground tile, same image: two addresses - any two services (TMS, tiles, KML, WMTS), any origin conventions -
    for which the clients compute the same rectangle are answered from the same internal tile coordinate.
